@@ -308,7 +308,7 @@ pub fn parse_bed<'a>(s: &'a Str) -> (r: Option<Result<(&'a Str, BedEntry), BedVa
         
         r matches Some(Err(e)) ==> e is InvalidInput && Some(e->InvalidInput_0.kind()) == bed_bad(s@),
 {
-    proof { lemma_splitn_len(trim_end_spec(s@), 4, '\t'); }
+    proof { lemma_splitn_len(trim_end_spec(s@), 3, '\t'); lemma_splitn_len(trim_end_spec(s@), 4, '\t'); lemma_splitn_len(trim_end_spec(s@), 5, '\t'); }
     let ghost c = bed_cols(s@);
 
     let mut split = s.trim_end().splitn(4, '\t');
@@ -377,7 +377,7 @@ pub fn parse_bedgraph<'a>(s: &'a Str) -> (r: Option<Result<(&'a Str, Value), Bed
         
         r matches Some(Err(e)) ==> e is InvalidInput && Some(e->InvalidInput_0.kind()) == bg_bad(s@),
 {
-    proof { lemma_splitn_len(trim_end_spec(s@), 5, '\t'); }
+    proof { lemma_splitn_len(trim_end_spec(s@), 3, '\t'); lemma_splitn_len(trim_end_spec(s@), 4, '\t'); lemma_splitn_len(trim_end_spec(s@), 5, '\t'); }
     let ghost c = bg_cols(s@);
 
     let mut split = s.trim_end().splitn(5, '\t');
@@ -393,6 +393,369 @@ pub fn parse_bedgraph<'a>(s: &'a Str) -> (r: Option<Result<(&'a Str, Value), Bed
     match res {
         Err(e) => Some(Err(e)),
         Ok((start, end, value)) => Some(Ok((chrom, Value { start, end, value }))),
+    }
+}
+
+// ================= (2) BedFileStream::next =================
+/// `StreamingLineReader<B>` (utils/file/streaming_linereader.rs): `read()` clears its buffer, reads one line with
+/// `BufRead::read_line`, returns `None` at end of file (0 bytes read), the line (already `trim_end`ed) or the
+/// I/O error.  Model: the outcomes of the reads still to come, `lines()`; each `read` pops one; at the end it
+/// stays at the end.  `text` = the line as it stands in the file (without promise about its line terminator:
+/// the parse functions trim again).
+#[verifier::external_body]
+pub struct VLineReader { _p: u8 }
+impl VLineReader {
+    pub uninterp spec fn lines(&self) -> Seq<Result<Seq<char>, IoErr>>;
+    #[verifier::external_body]
+    pub fn read<'a>(&'a mut self) -> (r: Option<Result<&'a Str, IoErr>>)
+        ensures
+            old(self).lines().len() == 0 ==> r is None && final(self).lines() == old(self).lines(),
+            old(self).lines().len() > 0 ==> r is Some && final(self).lines() == old(self).lines().drop_first(),
+            old(self).lines().len() > 0 && old(self).lines()[0] is Err ==> r == Some(Err::<&'a Str, IoErr>(old(self).lines()[0]->Err_0)),
+            old(self).lines().len() > 0 && old(self).lines()[0] is Ok ==> r->Some_0 is Ok && r->Some_0->Ok_0@ == trim_end_spec(old(self).lines()[0]->Ok_0),
+    { unimplemented!() }
+}
+
+/// what an item of the stream says, for comparison with the specification: texts by content
+pub enum ItemView<V> {
+    Item(Seq<char>, V),
+    Refused(Seq<char>),
+    Io(IoErr),
+}
+/// a BED entry by content
+pub struct EntryView { pub start: u32, pub end: u32, pub rest: Seq<char> }
+pub open spec fn entry_view(e: BedEntry) -> EntryView { EntryView { start: e.start, end: e.end, rest: e.rest@ } }
+pub open spec fn err_view<V>(e: BedValueError) -> ItemView<V> {
+    match e { BedValueError::InvalidInput(m) => ItemView::Refused(m.kind()), BedValueError::IoError(x) => ItemView::Io(x) }
+}
+pub open spec fn bed_item_view(r: Result<(&Str, BedEntry), BedValueError>) -> ItemView<EntryView> {
+    match r { Ok(v) => ItemView::Item(v.0@, entry_view(v.1)), Err(e) => err_view(e) }
+}
+pub open spec fn bg_item_view(r: Result<(&Str, Value), BedValueError>) -> ItemView<Value> {
+    match r { Ok(v) => ItemView::Item(v.0@, v.1), Err(e) => err_view(e) }
+}
+/// THE ITEM A BED LINE STANDS FOR (C01/C02/C13): the entry with the columns of that line, or the refusal
+pub open spec fn bed_line_item(line: Seq<char>) -> ItemView<EntryView> {
+    match bed_bad(line) {
+        Some(k) => ItemView::Refused(k),
+        None => ItemView::Item(bed_cols(line)[0],
+            EntryView { start: u32_of(bed_cols(line)[1])->Some_0, end: u32_of(bed_cols(line)[2])->Some_0, rest: bed_rest(line) }),
+    }
+}
+pub open spec fn bg_line_item(line: Seq<char>) -> ItemView<Value> {
+    match bg_bad(line) {
+        Some(k) => ItemView::Refused(k),
+        None => ItemView::Item(bg_cols(line)[0],
+            Value { start: u32_of(bg_cols(line)[1])->Some_0, end: u32_of(bg_cols(line)[2])->Some_0, value: f32_of(bg_cols(line)[3])->Some_0 }),
+    }
+}
+/// ... and the item a read outcome stands for: an I/O error is passed on
+pub open spec fn bed_read_item(l: Result<Seq<char>, IoErr>) -> ItemView<EntryView> {
+    match l { Ok(t) => bed_line_item(t), Err(e) => ItemView::Io(e) }
+}
+pub open spec fn bg_read_item(l: Result<Seq<char>, IoErr>) -> ItemView<Value> {
+    match l { Ok(t) => bg_line_item(t), Err(e) => ItemView::Io(e) }
+}
+/// trimming before parsing changes nothing (the reader trims, `next` trims, the parse functions trim)
+proof fn lemma_items_ignore_trailing_whitespace(t: Seq<char>)
+    ensures
+        bed_line_item(trim_end_spec(t)) == bed_line_item(t), bg_line_item(trim_end_spec(t)) == bg_line_item(t),
+        bed_line_item(trim_end_spec(trim_end_spec(t))) == bed_line_item(t), bg_line_item(trim_end_spec(trim_end_spec(t))) == bg_line_item(t),
+{
+    lemma_trim_idempotent(t);
+    lemma_trim_idempotent(trim_end_spec(t));
+}
+
+// The struct is generic in the value type V and carries the parse function as a fn-pointer field
+// `parse: Parser<V>`.  It has exactly two constructors: `from_bed_file` (`parse: parse_bed`, V = BedEntry) and
+// `from_bedgraph_file` (`parse: parse_bedgraph`, V = Value).  Both instantiations are verified separately, the
+// fn-pointer call `(self.parse)(line)` replaced by the call of the (verified) parse function of that
+// instantiation; the field itself becomes a unit marker.
+pub struct ParserBed;
+pub struct ParserBedGraph;
+pub struct BedFileStreamBed {
+    pub bed: VLineReader,
+    pub parse: ParserBed,
+}
+pub struct BedFileStreamBedGraph {
+    pub bed: VLineReader,
+    pub parse: ParserBedGraph,
+}
+
+impl BedFileStreamBed {
+fn next(&mut self) -> (r: Option<Result<(&Str, BedEntry), BedValueError>>)
+    ensures
+        
+        r is None <==> old(self).bed.lines().len() == 0,
+        
+        old(self).bed.lines().len() > 0 ==> final(self).bed.lines() == old(self).bed.lines().drop_first(),
+        old(self).bed.lines().len() == 0 ==> final(self).bed.lines() == old(self).bed.lines(),
+        
+        r matches Some(it) ==> bed_item_view(it) == bed_read_item(old(self).bed.lines()[0]),
+    decreases
+        
+        old(self).bed.lines().len(),
+{
+    proof { if self.bed.lines().len() > 0 && self.bed.lines()[0] is Ok { lemma_items_ignore_trailing_whitespace(self.bed.lines()[0]->Ok_0); } }
+
+        let line = match self.bed.read()? {
+            Ok(line) => line.trim_end(),
+            Err(e) => return Some(Err(e.into())),
+        };
+        match parse_bed(line) {
+            None => None,
+            Some(Ok(v)) => Some(Ok(v)),
+            Some(Err(e)) => Some(Err(e.into())),
+        }
+    }
+}
+
+impl BedFileStreamBedGraph {
+fn next(&mut self) -> (r: Option<Result<(&Str, Value), BedValueError>>)
+    ensures
+        
+        r is None <==> old(self).bed.lines().len() == 0,
+        
+        old(self).bed.lines().len() > 0 ==> final(self).bed.lines() == old(self).bed.lines().drop_first(),
+        old(self).bed.lines().len() == 0 ==> final(self).bed.lines() == old(self).bed.lines(),
+        
+        r matches Some(it) ==> bg_item_view(it) == bg_read_item(old(self).bed.lines()[0]),
+    decreases
+        
+        old(self).bed.lines().len(),
+{
+    proof { if self.bed.lines().len() > 0 && self.bed.lines()[0] is Ok { lemma_items_ignore_trailing_whitespace(self.bed.lines()[0]->Ok_0); } }
+
+        let line = match self.bed.read()? {
+            Ok(line) => line.trim_end(),
+            Err(e) => return Some(Err(e.into())),
+        };
+        match parse_bedgraph(line) {
+            None => None,
+            Some(Ok(v)) => Some(Ok(v)),
+            Some(Err(e)) => Some(Err(e.into())),
+        }
+    }
+}
+
+// ---------------- composition with unit `feed` ----------------
+// `feed` (BedParserStreamingIterator::process_to_bbi) ASSUMES a source `VSource` whose `rest()` is "the item
+// sequence" and whose `next()` pops it.  The drivers below call `next` until `None` and collect what it returned
+// (names copied to owned texts): the collected sequence is, item by item and in order, the parse of the file's
+// lines -- so the `rest()` that `feed` talks about is `lines().map(bed_read_item)`; in particular it has exactly
+// one item per line.  Proved from the contract of `next` alone.
+pub open spec fn bed_owned_view(r: Result<(Str, BedEntry), BedValueError>) -> ItemView<EntryView> {
+    match r { Ok(v) => ItemView::Item(v.0@, entry_view(v.1)), Err(e) => err_view(e) }
+}
+pub open spec fn bg_owned_view(r: Result<(Str, Value), BedValueError>) -> ItemView<Value> {
+    match r { Ok(v) => ItemView::Item(v.0@, v.1), Err(e) => err_view(e) }
+}
+fn drain_bed(st: &mut BedFileStreamBed) -> (out: Vec<Result<(Str, BedEntry), BedValueError>>)
+    ensures
+        
+        out@.len() == old(st).bed.lines().len(),
+        final(st).bed.lines().len() == 0,
+        
+        forall|k: int| 0 <= k < out@.len() ==> bed_owned_view(#[trigger] out@[k]) == bed_read_item(old(st).bed.lines()[k]),
+{
+    let ghost all = st.bed.lines();
+    let mut out: Vec<Result<(Str, BedEntry), BedValueError>> = Vec::new();
+    loop
+        invariant
+            out@.len() <= all.len(), all == old(st).bed.lines(),
+            st.bed.lines() == all.subrange(out@.len() as int, all.len() as int),
+            forall|k: int| 0 <= k < out@.len() ==> bed_owned_view(#[trigger] out@[k]) == bed_read_item(all[k]),
+        ensures
+            out@.len() == all.len(), st.bed.lines().len() == 0,
+        decreases
+            
+            st.bed.lines().len(),
+    {
+        let ghost n = out@.len() as int;
+        proof {
+            if n < all.len() {
+                assert(all.subrange(n, all.len() as int)[0] == all[n]);
+                assert(all.subrange(n, all.len() as int).drop_first() =~= all.subrange(n + 1, all.len() as int));
+            }
+        }
+        match st.next() {
+            None => { break; }
+            Some(Ok(v)) => { let name = v.0.to_string(); out.push(Ok((name, v.1))); }
+            Some(Err(e)) => { out.push(Err(e)); }
+        }
+    }
+    out
+}
+fn drain_bedgraph(st: &mut BedFileStreamBedGraph) -> (out: Vec<Result<(Str, Value), BedValueError>>)
+    ensures
+        
+        out@.len() == old(st).bed.lines().len(),
+        final(st).bed.lines().len() == 0,
+        
+        forall|k: int| 0 <= k < out@.len() ==> bg_owned_view(#[trigger] out@[k]) == bg_read_item(old(st).bed.lines()[k]),
+{
+    let ghost all = st.bed.lines();
+    let mut out: Vec<Result<(Str, Value), BedValueError>> = Vec::new();
+    loop
+        invariant
+            out@.len() <= all.len(), all == old(st).bed.lines(),
+            st.bed.lines() == all.subrange(out@.len() as int, all.len() as int),
+            forall|k: int| 0 <= k < out@.len() ==> bg_owned_view(#[trigger] out@[k]) == bg_read_item(all[k]),
+        ensures
+            out@.len() == all.len(), st.bed.lines().len() == 0,
+        decreases
+            
+            st.bed.lines().len(),
+    {
+        let ghost n = out@.len() as int;
+        proof {
+            if n < all.len() {
+                assert(all.subrange(n, all.len() as int)[0] == all[n]);
+                assert(all.subrange(n, all.len() as int).drop_first() =~= all.subrange(n + 1, all.len() as int));
+            }
+        }
+        match st.next() {
+            None => { break; }
+            Some(Ok(v)) => { let name = v.0.to_string(); out.push(Ok((name, v.1))); }
+            Some(Err(e)) => { out.push(Err(e)); }
+        }
+    }
+    out
+}
+
+// ================= (3) BedIteratorStream::next / BedInfallibleIteratorStream::next =================
+/// `V: Clone` (Value, BedEntry, or the caller's type): an opaque payload; `Clone` is ASSUMED faithful
+pub struct Val { pub payload: u64 }
+impl Val {
+    pub fn clone(&self) -> (r: Val)
+        ensures r == *self,
+    { Val { payload: self.payload } }
+}
+/// `C: Into<String> + for<'a> PartialEq<&'a str>` (in practice `&str` / `String`): a text
+#[verifier::external_body]
+pub struct CName { _p: u8 }
+impl CName {
+    pub uninterp spec fn view(&self) -> Seq<char>;
+    /// `Into<String>`: ASSUMED to keep the characters
+    #[verifier::external_body]
+    pub fn into(self) -> (r: Str)
+        ensures r@ == self@,
+    { unimplemented!() }
+}
+/// `C == &str` (`PartialEq<&str> for C`): ASSUMED to be equality of the characters
+#[verifier::external_body]
+pub fn cname_eq(a: &CName, b: &Str) -> (r: bool)
+    ensures r == (a@ == b@),
+{ unimplemented!() }
+/// `E: Into<BedValueError>`: some deterministic conversion
+#[verifier::external_body]
+pub struct SrcErr { _p: u8 }
+impl SrcErr {
+    pub uninterp spec fn conv(self) -> BedValueError;
+    #[verifier::external_body]
+    pub fn into(self) -> (r: BedValueError)
+        ensures r == self.conv(),
+    { unimplemented!() }
+}
+/// `I: Iterator<Item = Result<(C, V), E>>`: the items not handed out yet; ASSUMED fused (stays exhausted)
+#[verifier::external_body]
+pub struct VIter { _p: u8 }
+impl VIter {
+    pub uninterp spec fn rest(&self) -> Seq<Result<(CName, Val), SrcErr>>;
+    #[verifier::external_body]
+    pub fn next(&mut self) -> (r: Option<Result<(CName, Val), SrcErr>>)
+        ensures
+            old(self).rest().len() == 0 ==> r is None && final(self).rest() == old(self).rest(),
+            old(self).rest().len() > 0 ==> r == Some(old(self).rest()[0]) && final(self).rest() == old(self).rest().drop_first(),
+    { unimplemented!() }
+}
+/// `I: Iterator<Item = (C, V)>`
+#[verifier::external_body]
+pub struct VIterI { _p: u8 }
+impl VIterI {
+    pub uninterp spec fn rest(&self) -> Seq<(CName, Val)>;
+    #[verifier::external_body]
+    pub fn next(&mut self) -> (r: Option<(CName, Val)>)
+        ensures
+            old(self).rest().len() == 0 ==> r is None && final(self).rest() == old(self).rest(),
+            old(self).rest().len() > 0 ==> r == Some(old(self).rest()[0]) && final(self).rest() == old(self).rest().drop_first(),
+    { unimplemented!() }
+}
+
+pub struct BedIteratorStream {
+    pub iter: VIter,
+    pub curr: Option<(Str, Val)>,
+}
+pub struct BedInfallibleIteratorStream {
+    pub iter: VIterI,
+    pub curr: Option<(Str, Val)>,
+}
+
+// R11 in both `next`s: the generic signature instantiated (`(&str, V)` -> `(&Str, Val)`); `v.0 == &c.0` ->
+// `cname_eq(&v.0, &c.0)`; the closing `self.curr.as_ref().map(|v| E)` -> `match self.curr.as_ref() { Some(v) =>
+// Some(E), None => None }` (definition of Option::map; E verbatim).
+impl BedIteratorStream {
+fn next(&mut self) -> (r: Option<Result<(&Str, Val), BedValueError>>)
+    ensures
+        
+        r is None <==> old(self).iter.rest().len() == 0,
+        
+        old(self).iter.rest().len() > 0 ==> final(self).iter.rest() == old(self).iter.rest().drop_first(),
+        old(self).iter.rest().len() == 0 ==> final(self).iter.rest() == old(self).iter.rest(),
+        
+        old(self).iter.rest().len() > 0 ==> (old(self).iter.rest()[0] matches Ok(x) ==>
+            r is Some && r->Some_0 is Ok && r->Some_0->Ok_0.0@ == x.0@ && r->Some_0->Ok_0.1 == x.1),
+        
+        old(self).iter.rest().len() > 0 ==> (old(self).iter.rest()[0] matches Err(e) ==>
+            r == Some(Err::<(&Str, Val), BedValueError>(e.conv()))),
+        
+        r matches Some(Ok(y)) ==> final(self).curr is Some && final(self).curr->Some_0.0@ == y.0@ && final(self).curr->Some_0.1 == y.1,
+    decreases
+        
+        old(self).iter.rest().len(),
+{
+        self.curr = match (self.curr.take(), self.iter.next()?) {
+            (_, Err(e)) => return Some(Err(e.into())),
+            (Some(c), Ok(v)) => {
+                if cname_eq(&v.0, &c.0) {
+                    Some((c.0, v.1))
+                } else {
+                    Some((v.0.into(), v.1))
+                }
+            }
+            (None, Ok(v)) => Some((v.0.into(), v.1)),
+        };
+        match self.curr.as_ref() { Some(v) => Some(Ok((v.0.deref(), v.1.clone()))), None => None }
+    }
+}
+impl BedInfallibleIteratorStream {
+fn next(&mut self) -> (r: Option<Result<(&Str, Val), BedValueError>>)
+    ensures
+        
+        r is None <==> old(self).iter.rest().len() == 0,
+        
+        old(self).iter.rest().len() > 0 ==> final(self).iter.rest() == old(self).iter.rest().drop_first(),
+        old(self).iter.rest().len() == 0 ==> final(self).iter.rest() == old(self).iter.rest(),
+        
+        old(self).iter.rest().len() > 0 ==>
+            r is Some && r->Some_0 is Ok && r->Some_0->Ok_0.0@ == old(self).iter.rest()[0].0@ && r->Some_0->Ok_0.1 == old(self).iter.rest()[0].1,
+        
+        r matches Some(Ok(y)) ==> final(self).curr is Some && final(self).curr->Some_0.0@ == y.0@ && final(self).curr->Some_0.1 == y.1,
+    decreases
+        
+        old(self).iter.rest().len(),
+{
+        self.curr = match (self.curr.take(), self.iter.next()?) {
+            (Some(c), v) => {
+                if cname_eq(&v.0, &c.0) {
+                    Some((c.0, v.1))
+                } else {
+                    Some((v.0.into(), v.1))
+                }
+            }
+            (None, v) => Some((v.0.into(), v.1)),
+        };
+        match self.curr.as_ref() { Some(v) => Some(Ok((v.0.deref(), v.1.clone()))), None => None }
     }
 }
 
